@@ -55,13 +55,14 @@ TEXT_RULE = {
     'evalx': 'two separately parsed formulas (two environments) combined by and / or / eq / xor / implies / ite of either environment: 12 fixed pairs and seeded random pairs - the same structure under two spellings of the same ids (p,q,x / req,ack,busy / x,p,q) or unrelated formulas over overlapping ids; seven result diagrams compared',
     'evalid': 'API orderings with arbitrary ids: 8 formula templates x 6 id layouts with one id SOLVED so that the two children of one node are different diagrams with the same FxHash (the words fed to the hasher are recorded and the FxHasher replayed; kept only when the real get_hash confirms the collision; about 30 orderings, each also inside a conjunction and under a negation), plus seeded random formulas over 6 names under random listings with ids near 0, near usize::MAX, powers of two and random 64-bit values; the evaluated diagram and its conversion to BDD<usize> are compared in rank space with the model under the order-isomorphic small ids, and BY NAME with the default-order answer',
     'evallong': 'text handling beyond short inputs, tokenized and evaluated: 4095..70000 blanks / newlines / comment characters before, inside and after a formula; identifiers of 255..5000 characters; CRLF, lone CR, byte order mark, tab, form feed, NBSP, U+2028, zero-width space, combining accents, NUL; open, empty and adjacent comments; counting constants with leading zeros, signs, separators, 2^64-1 and 2^64, non-ASCII digits; nesting depth 10..200 (thorough 400) of brackets, negations, binders, lists, if-then-else',
+    'evalcoll': 'pairs of distinct 16-character identifiers with the SAME 64-bit FxHash (first halves random, second halves solved byte by byte, kept only when the real FxHasher agrees; 6 pairs, thorough 40) in 9 formula shapes (both orders, bound/free, counting, xor, lfp, ite) and in API orderings: tokens, vars, free_vars, diagram',
     'evalc': 'counting grid: 5 comparisons x 10 constants (0..4, 2^63-2 .. 2^63, 2^64-2, 2^64-1) x 6 operand lists, 5x5 list-vs-list grid; plus seeded random formulas containing a counting comparison',
     'evalfp': '23 hand-picked fixed-point formulas (identity, constants, divergent negation, chains through quantifiers, nested/mixed lfp-gfp, shadowing by quantifier and by inner fixed point, counting, ite); plus seeded random formulas containing lfp/gfp over 3 names, 3/4 monotone by construction, 1/4 arbitrary',
 }
 
 
 def text(parts, exhaustive=True):
-    ops = {'tok': ['tok'], 'parse': ['parse'], 'eval': ['eval'], 'evalc': ['eval'], 'evalfp': ['eval'], 'evalord': ['eval'], 'evalwide': ['eval'], 'evalq': ['eval'], 'evalshadow': ['eval'], 'sym': ['sym'], 'evalx': ['evalx'], 'evalid': ['evalid'], 'evallong': ['tok', 'eval']}
+    ops = {'tok': ['tok'], 'parse': ['parse'], 'eval': ['eval'], 'evalc': ['eval'], 'evalfp': ['eval'], 'evalord': ['eval'], 'evalwide': ['eval'], 'evalq': ['eval'], 'evalshadow': ['eval'], 'sym': ['sym'], 'evalx': ['evalx'], 'evalid': ['evalid'], 'evallong': ['tok', 'eval'], 'evalcoll': ['tok', 'eval']}
     return dict(suite='text', parts=parts, profile='release', exhaustive=exhaustive,
                 corpus_ops=sorted(set(o for p in parts for o in ops[p])),
                 rule='; '.join('%s: %s' % (p, TEXT_RULE[p]) for p in parts))
@@ -70,8 +71,10 @@ def text(parts, exhaustive=True):
 CLI_RULE = {
     'grid': 'option grid on 40 fixed formulas (every construct): all 15 accepted spellings of -f, the three input channels (stdin, file, --evaluate), -c {t,f,True,false} x -m, -m alone and with -f t, -b {1,2,3}; every run asks for -t -v -r together; header, row set, -v lines and -r list are compared',
     'order': '12 formulas over <=3 names x all 65 sequences of distinct names from {a,b,c,u} (permutations, subsets, supersets with the unused name u before/between/after) as ordering file, plus files with duplicates, punctuation, keywords, numbers, comments, empty; every run also feeds its own -r output back with -o and requires the identical table (round trip)',
-    'size': 'size boundaries: conjunction / disjunction tables with 63, 64, 65, 66, 70 and 130 columns x filters x -m; evaluations that build more than a thousand table entries (pairs (a_i & b_i) under an order that separates the a from the b) and end in a constant or a small diagram, with -b absent, 1, 2, 3',
+    'size': 'size boundaries: conjunction / disjunction tables with 63, 64, 65, 66, 70 and 130 columns x filters x -m; evaluations that build tens of thousands of table entries (13 pairs, thorough 15) (pairs (a_i & b_i) under an order that separates the a from the b) and end in a constant or a small diagram, with -b absent, 1, 2, 3',
     'shadow': 'the 350 systematic shadowing formulas of S-text/evalshadow through the binary (header = free variables in order, rows) x filters x channels',
+    'coll': 'identifiers that collide under FxHash (see S-text/evalcoll) as formula variables and in ordering files, through the binary, half with the -r / -o round trip',
+    'models': '-m (with and without -f) on 130 counting formulas (five comparisons x list-against-list with operands shared at different multiplicities, names that occur in the right-hand list only, empty lists, compound operands; constants 0..3), a third of the shadowing formulas and seeded random formulas: the printed rows must be those of model(d) for the diagram d the model computes, or at least a genuine cube of it',
     'names': 'variable names of 20, 23, 24, 25, 26, 32, 64 and 200 characters in 3 formulas x 4 ordering files that do not list them last (and none), each with the -r / -o round trip',
     'env': 'hidden inputs: every environment variable the binary announces in --help ([env: NAME=]) or mentions in its sources (env = "NAME", env::var("NAME")) is exported with the values True/False/Any/t/f/0/1 around 12 grid formulas x 6 (-f, -c) combinations; the output must be what the model prints for the command line alone (no such variable exists on the unchanged tree: 0 cases)',
     'random': 'seeded random formulas (monotone-by-construction fixed points, <=6 names) x random option sets (-f, -c, -m, -b, channel) x random ordering files (unused names, duplicates, separators), half of those with round trip',
@@ -110,11 +113,11 @@ def dbg(spec):
 
 PROPS = {
     'C02': dict(suites=[bdd(['conn', 'quant', 'count', 'fp', 'model', 'retain', 'clean', 'mixed', 'wide']), text(['sym', 'evalx', 'evalid'], exhaustive=False)]),
-    'C01': dict(suites=[text(['tok', 'parse', 'eval', 'evalfp', 'evalwide', 'evalq', 'evalshadow', 'evallong', 'sym', 'evalid'])]),
-    'C08': dict(suites=[text(['tok', 'parse', 'evallong'])]),
-    'C09': dict(suites=[text(['eval', 'evalwide', 'evalshadow', 'sym'])]),
-    'C10': dict(suites=[cli(['grid', 'order', 'size', 'shadow', 'names', 'env', 'random'])]),
-    'C11': dict(suites=[cli(['order', 'names', 'random']), text(['evalord', 'evalid', 'sym'])]),
+    'C01': dict(suites=[text(['tok', 'parse', 'eval', 'evalfp', 'evalwide', 'evalq', 'evalshadow', 'evallong', 'sym', 'evalid', 'evalcoll'])]),
+    'C08': dict(suites=[text(['tok', 'parse', 'evallong', 'evalcoll'])]),
+    'C09': dict(suites=[text(['eval', 'evalwide', 'evalshadow', 'sym', 'evalcoll'])]),
+    'C10': dict(suites=[cli(['grid', 'order', 'size', 'shadow', 'names', 'coll', 'env', 'random'])]),
+    'C11': dict(suites=[cli(['order', 'names', 'coll', 'random']), text(['evalord', 'evalid', 'sym'])]),
     'C12': dict(suites=[cli(['robustlib', 'robustbin', 'grid', 'size']), text(['evallong'], exhaustive=False), dbg(cli(['robustlib'])), dbg(text(['evallong', 'evalc']))]),
     'C19': dict(suites=[dict(suite='set', parts=[], profile='release', exhaustive=True,
                              rule='complete BFS over all 256 reachable pairs of reference states of two 2-bit sets sharing an environment x all 32 next operations (insert, contains per element; union, intersect, complement for all four operand pairs incl. the same set twice; empty; universe), each followed by all 8 membership queries twice; plus seeded random histories of <=25 operations over 1..5 bits ending in a full membership sweep; answers and both final diagrams are compared')]),
@@ -133,7 +136,7 @@ PROPS = {
     'C04': dict(suites=[bdd(['quant', 'wide']), text(['evalq', 'evalfp', 'sym'])]),
     'C05': dict(suites=[bdd(['count', 'wide']), text(['evalc', 'sym']), dbg(bdd(['count'])), dbg(text(['evalc']))]),
     'C06': dict(suites=[bdd(['fp']), text(['evalfp', 'evalshadow', 'sym'], exhaustive=False)]),
-    'C07': dict(suites=[bdd(['model', 'wide']), cli(['grid']), text(['sym'], exhaustive=False)]),
+    'C07': dict(suites=[bdd(['model', 'wide']), cli(['grid', 'models']), text(['sym'], exhaustive=False)]),
     'C20': dict(suites=[bdd(['retain', 'wide']), cli(['grid', 'env']), text(['sym'], exhaustive=False)]),
 }
 
